@@ -401,9 +401,16 @@ func checkC12(c *Ctx) {
 }
 
 func checkC13(c *Ctx) {
-	c.rule = "destination faults: files of 0-2 chunks x {binary, armored} x EVERY write-call index of the fault-free run failing once / from then on: per-op results, bytes accepted, calls, vs the model; oracle: all ops ok => the destination holds a file that decrypts to the plaintext written. source faults: EVERY offset of small files and every offset within +-2 of header end / nonce end / chunk boundaries / armor line boundaries of larger ones, binary and armored, sticky failure: outcome vs the model; oracle: non-EOF error, released bytes a prefix, failed reader stays failed. distinct_nontrivial = distinct (file, fault) cases."
+	c.rule = "entropy: each of the first six reads of crypto/rand failing once, per recipient type: an error must surface; armor reader over a source failing once at every offset: sticky, never a clean EOF, released bytes a prefix; destination faults: files of 0-2 chunks x {binary, armored} x EVERY write-call index of the fault-free run failing once / from then on: per-op results, bytes accepted, calls, vs the model; oracle: all ops ok => the destination holds a file that decrypts to the plaintext written. source faults: EVERY offset of small files and every offset within +-2 of header end / nonce end / chunk boundaries / armor line boundaries of larger ones, binary and armored, sticky failure: outcome vs the model; oracle: non-EOF error, released bytes a prefix, failed reader stays failed. distinct_nontrivial = distinct (file, fault) cases."
 	pty := x25519Party(c.rng.bytes(32))
 	ps := []*party{pty}
+	// ---- the entropy source fails once, at each of the reads Encrypt makes ----
+	for _, kind := range []string{"x25519", "scrypt", "ssh-ed25519", "ssh-rsa"} {
+		c.randFaultSweep(&scenario{parties: []*party{c.freshParty(kind)}, plain: c.rng.bytes(20), tape: c.rng.bytes(300)})
+	}
+	c.randFaultSweep(&scenario{parties: []*party{c.freshParty("x25519"), c.freshParty("ssh-rsa"), c.freshParty("x25519")}, plain: c.rng.bytes(20), tape: c.rng.bytes(400)})
+	// ---- a bare armor reader over a source that fails once ----
+	c.armorTransientSweep()
 	// ---- destination faults ----
 	sizes := []int{0, 10, chunkSize + 3, 2*chunkSize + 1}
 	if c.thorough() {
